@@ -11,7 +11,7 @@ import (
 func init() {
 	Registry["C01"] = RunC01
 	Metas["C01"] = Meta{
-		Rule: "episode = 1..6 generated well-formed requests (methods x header sets incl. near-miss framing names x body sizes around 4K/8K/64K x CL/chunked/trailers x Expect:100 x keep-alive/close x HTTP/1.0) on one simulated connection, pipelined/ping-pong, seeded fragmentation; x {buffered,streaming} x read buffer 4096/8192/16384 x header normalisation on/off. Non-trivial: >= 2 requests on the connection or >= 2 fragments delivered inside a message; distinct = distinct abstract event signature (event kinds, fragment size buckets, request shape classes). Added later: WithSenseClientDisconnection (a second hertz goroutine blocked in a read while the handler runs, the handler parks on entry so that goroutine is under the scheduler), 600 KB bodies (beyond the 512 KiB buffer-recycling threshold), handlers that stop reading a streamed body after a tape-chosen prefix.",
+		Rule: "episode = 1..6 generated well-formed requests (methods x header sets incl. near-miss framing names x body sizes around 4K/8K/64K x CL/chunked/trailers x Expect:100 x keep-alive/close x HTTP/1.0) on one simulated connection, pipelined/ping-pong, seeded fragmentation; x {buffered,streaming} x read buffer 4096/8192/16384 x header normalisation on/off. Non-trivial: >= 2 requests on the connection or >= 2 fragments delivered inside a message; distinct = distinct abstract event signature (event kinds, fragment size buckets, request shape classes). Added later: WithSenseClientDisconnection (a second hertz goroutine blocked in a read while the handler runs, the handler parks on entry so that goroutine is under the scheduler), 600 KB bodies (beyond the 512 KiB buffer-recycling threshold), handlers that stop reading a streamed body after a tape-chosen prefix. Later still: header fields with empty values, handlers that sense client disconnection, partial stream reads, a near-miss Transfer-Encoding name that only Unicode case folding equates.",
 		Real: []string{"route.Engine.Serve/ServeHTTP", "http1.Server.Serve", "req.ReadHeader/ReadLimitBody/ReadBodyStream", "ext.ReadBody/readBodyChunked/ReadTrailer/bodyStream", "standard.Conn (linked buffers)", "resp.Write"},
 		Stub: []string{"TCP (SimConn)", "peer (scripted actor)", "transporter accept loop (stub; Engine.Serve called directly)", "clock (synctest)"},
 		Assumptions: []string{
